@@ -49,14 +49,20 @@ Theorem render_contract_partial :
     end.
 Proof.
   intros w sz f Hl Hw Hf Hn Hv.
-  exact (render_contract_from_good (denote w) sz f (contract_by_structural_induction w Hw Hf Hl) Hn Hv).
+  exact (render_contract_from_good 1 (denote w) sz f (contract_by_structural_induction w Hw Hf Hl) Hn Hv).
 Qed.
 Print Assumptions render_contract_partial.
 
 (* ---- the same for the larger fragment [proved_fragment2] that adds the two constructors rendering a
         child with size (): Padding(width='clip') and Overlay(width='pack') (a fixed top widget, clipped
         when it is wider than the screen).  Their fixed child must lie in [proved_fragment] and
-        [fixed_fragment]; the leaves below it also need the fixed leaf hypothesis (leaves_ok2). ---- *)
+        [fixed_fragment]; the leaves below it also need the fixed leaf hypothesis (leaves_ok2).
+        This fragment also contains widgets without rows: the empty Pile, and AttrMap / Padding / Filler /
+        Pile around such widgets.  The contract is proved with the row count [min_rows w] (0 or 1) in
+        place of 1 (rows_and_pack_partial_ext below); Columns of such widgets has one row since ba7db6e
+        (rows() = max(1, heights), the canvas padded to one row), so they may stand in any column, as the
+        body of a LineBox, in a Frame or below an Overlay.  The top widget of an Overlay must have a row
+        ([min_rows t = 1]): a 0-row top widget with height='pack' makes the real render raise. ---- *)
 Theorem render_contract_partial_ext :
   forall w sz f, leaves_ok2 w -> WellFormed w -> proved_fragment2 w = true ->
     sz <> SFixed -> valid_for (m_sizing (denote w)) sz ->
@@ -66,7 +72,7 @@ Theorem render_contract_partial_ext :
     end.
 Proof.
   intros w sz f Hl Hw Hf Hn Hv.
-  exact (render_contract_from_good (denote w) sz f (contract_ext w Hw Hf Hl) Hn Hv).
+  exact (render_contract_from_good _ (denote w) sz f (contract_ext w Hw Hf Hl) Hn Hv).
 Qed.
 Print Assumptions render_contract_partial_ext.
 
@@ -107,6 +113,21 @@ Proof.
 Qed.
 Print Assumptions rows_and_pack_partial.
 
+Theorem rows_and_pack_partial_ext :
+  forall w c f, leaves_ok2 w -> WellFormed w -> proved_fragment2 w = true ->
+    s_flow (m_sizing (denote w)) = true -> 1 <= c ->
+    match m_rows (denote w) c f with
+    | Ok h => min_rows w <= h /\ exists wd, 0 <= wd /\ m_pack (denote w) (SFlow c) f = Ok (wd, h)
+    | Err e => soft e
+    end.
+Proof.
+  intros w c f Hl Hw Hf Hs Hc.
+  pose proof (contract_ext w Hw Hf Hl) as G.
+  pose proof (g_rows _ G c f Hs Hc) as R. pose proof (g_pack _ G c f Hs Hc) as P.
+  destruct (m_rows (denote w) c f); auto.
+Qed.
+Print Assumptions rows_and_pack_partial_ext.
+
 (* the hypotheses about a leaf are implied by plain conditions on what the leaf reports *)
 Theorem leaf_contract_sufficient :
   forall d, leaf_contract d -> leaf_fixed_ok d -> Good (leaf_sem d) /\ fpack_ok (leaf_sem d).
@@ -115,34 +136,39 @@ Print Assumptions leaf_contract_sufficient.
 
 (* the per-constructor lemmas, for arbitrary children satisfying the contract *)
 Theorem attrmap_contract : forall s, Good s -> Good (attr_sem s).
-Proof. exact attr_good. Qed.
+Proof. exact (attr_good 1). Qed.
 Theorem boxadapter_contract : forall s h, Good s -> s_box (m_sizing s) = true -> 1 <= h -> Good (boxadapter_sem s h).
-Proof. exact boxadapter_good. Qed.
+Proof. intros s h G Hb Hh. apply (boxadapter_good 1 1); auto; lia. Qed.
 Theorem padding_contract : forall s align wt mw l r,
   Good s -> wt <> WClip -> padding_child_ok (m_sizing s) wt = true -> 0 <= l -> 0 <= r ->
   Good (padding_sem s align wt mw l r).
-Proof. exact padding_good. Qed.
+Proof. exact (padding_good 1). Qed.
 Theorem filler_contract : forall s va ht mh t b,
   Good s -> filler_child_ok (m_sizing s) ht = true -> 0 <= t -> 0 <= b -> Good (filler_sem s va ht mh t b).
-Proof. exact filler_good. Qed.
+Proof. intros s va ht mh t b G. apply filler_good; auto; lia. Qed.
 Theorem pile_contract : forall l fp,
   l <> [] -> Forall pgood l -> Forall (pile_ok (pile_sizing l)) l -> Good (pile_sem l fp).
-Proof. exact pile_good. Qed.
+Proof. intros l fp Hne. apply pile_good; [lia|auto]. Qed.
 Print Assumptions pile_contract.
+(* a Pile whose items may have no rows, the empty Pile included *)
+Theorem pile_contract_zero_rows : forall l fp,
+  Forall (pgoodN 0) l -> Forall (pile_ok (pile_sizing l)) l -> GoodN 0 (pile_sem l fp).
+Proof. intros l fp. apply pile_good; [lia|intros; lia]. Qed.
 Theorem frame_contract : forall body hd ft fpart,
   Good body -> s_box (m_sizing body) = true -> opt_flow_good hd -> opt_flow_good ft ->
   Good (frame_sem body hd ft fpart).
-Proof. exact frame_good. Qed.
+Proof. intros body hd ft fpart. apply (frame_good 1 1). lia. Qed.
 Print Assumptions frame_contract.
 Theorem overlay_contract : forall t b p,
   Good t -> Good b -> s_box (m_sizing b) = true -> overlay_given p ->
   overlay_top_ok (m_sizing t) p = true -> Good (overlay_sem t b p).
-Proof. exact overlay_good. Qed.
+Proof. intros t b p Gt Gb. apply overlay_good; auto. exists 1. exact Gb. Qed.
 Print Assumptions overlay_contract.
+(* the columns may hold widgets without rows; Columns itself always has at least one (ba7db6e) *)
 Theorem columns_contract : forall l d mw fp,
-  Forall cgood l -> Forall (cols_item_ok (cols_sizing l)) l ->
+  Forall (cgoodN 0) l -> Forall (cols_item_ok (cols_sizing l)) l ->
   0 <= d -> 1 <= mw -> 0 <= fp < zlength l -> Good (cols_sem l d mw fp).
-Proof. exact cols_good. Qed.
+Proof. intros l d mw fp. apply (cols_good 0). lia. Qed.
 Print Assumptions columns_contract.
 
 (* ---- concrete leaves (they also show that the leaf hypothesis is satisfiable) ---- *)
@@ -380,4 +406,32 @@ Proof. vm_compute. repeat split; reflexivity. Qed.
 Example ext_samples_leaves : leaves_ok2 clip_sample /\ leaves_ok2 overlay_pack_sample.
 Proof.
   cbn. repeat (first [exact wrap_ok | exact solid_ok | exact wrap_fx | split]).
+Qed.
+
+(* ---- widgets without rows (ba7db6e): the empty Pile is inside [proved_fragment2]; a flow Columns whose
+        columns all have no rows reports and renders one row; LineBox around it has three ---- *)
+Definition empty_pile : widget := WPile PNil 0.
+Definition cols_of_empty : widget := WColumns (CCons empty_pile KWeight 1 false CNil) 0 1 0.
+Definition cols_box_and_empty : widget :=
+  WColumns (CCons (WLeaf solid_leaf) KGiven 2 true (CCons (WAttr empty_pile) KWeight 1 false CNil)) 1 1 1.
+Example zero_row_children_in_scope :
+  WellFormed empty_pile /\ proved_fragment2 empty_pile = true /\ min_rows empty_pile = 0
+  /\ WellFormed cols_of_empty /\ proved_fragment2 cols_of_empty = true /\ min_rows cols_of_empty = 1
+  /\ WellFormed cols_box_and_empty /\ proved_fragment2 cols_box_and_empty = true
+  /\ WellFormed (linebox empty_pile) /\ proved_fragment2 (linebox empty_pile) = true
+  /\ min_rows (linebox empty_pile) = 1.
+Proof. vm_compute. repeat split; reflexivity. Qed.
+Example zero_row_children_render :
+  m_rows (denote empty_pile) 5 false = Ok 0
+  /\ m_render (denote empty_pile) (SFlow 5) false = Ok (mkC 5 0 None true)
+  /\ m_rows (denote cols_of_empty) 5 false = Ok 1
+  /\ m_render (denote cols_of_empty) (SFlow 5) false = Ok (mkC 5 1 None true)
+  /\ m_rows (denote cols_box_and_empty) 7 false = Ok 1
+  /\ m_render (denote cols_box_and_empty) (SFlow 7) false = Ok (mkC 7 1 None true)
+  /\ m_rows (denote (linebox empty_pile)) 5 false = Ok 3
+  /\ m_render (denote (linebox empty_pile)) (SFlow 5) false = Ok (mkC 5 3 None true).
+Proof. vm_compute. repeat split; reflexivity. Qed.
+Example zero_row_leaves : leaves_ok2 (linebox empty_pile) /\ leaves_ok2 cols_box_and_empty.
+Proof.
+  cbn. repeat (first [exact line_ok | exact solid_ok | exact divider_ok | exact title_ok | split]).
 Qed.
